@@ -508,6 +508,13 @@ pub fn contexts() -> Vec<Context> {
         ("(?<=□)□'", cat(vec![lb(h0()), h1()])),
         ("(?<=□|□')", look(Behind, alt(vec![h0(), h1()]))),
         ("(?<=x)□", cat(vec![lb(x()), h0()])),
+        // a loop over a look-behind with alternatives, then a failure (a non-atomic look-behind
+        // alternation multiplies the paths)
+        ("(?:a(?<=□|□'))*b", cat(vec![star(cat(vec![x(), look(Behind, alt(vec![h0(), h1()]))])), y()])),
+        ("(?:a(?=□|□'))*b", cat(vec![star(cat(vec![x(), la(alt(vec![h0(), h1()]))])), y()])),
+        ("(?:a(?<=a|aa))*□", cat(vec![star(cat(vec![x(), look(Behind, alt(vec![lit("a"), lit("aa")]))])), h0()])),
+        ("(?:.(?<=a|.a|..a))*□", cat(vec![star(cat(vec![Node::Dot, look(Behind, alt(vec![lit("a"), cat(vec![Node::Dot, lit("a")]), cat(vec![Node::Dot, Node::Dot, lit("a")])]))])), h0()])),
+        ("(?:a(?<!b|bb))*□", cat(vec![star(cat(vec![x(), look(BehindNeg, alt(vec![lit("b"), lit("bb")]))])), h0()])),
         // non-atomic look-ahead probes: a look-ahead body with a backtracking point followed by
         // something that can fail
         ("(?=(□)(?=))\\1□'", cat(vec![la(cat(vec![grp(h0()), e()])), Node::Backref(1), h1()])),
